@@ -126,6 +126,7 @@ def run(ctx):
             msg = f"stores {got}; expected {exp}"
         ctx.ob("C08.setters", f"{cname}.{prop}.setter", ok, msg, None, f"src/vector/backends/sympy.py:{fn.lineno}")
     dunder_obligations(ctx, "C08.operators", backends=("sympy",))
+    table_obligations(ctx, "C08.operators", backends=("sympy",))
 
     # ---- constructors: every subset of <= 4 of the 19 names through the six SymPy classes ------------------------
     import itertools
